@@ -238,6 +238,25 @@ def _view_cases(rng, n):
     return out
 
 
+def _slop_cases(rng, n):
+    """index, then phrase frequencies with slop (documents long enough for positions that alias modulo 64)"""
+    out = []
+    for _ in range(n):
+        nd = rng.randint(1, 3)
+        vocab = rng.randint(2, 4)
+        docs = [[rng.randint(1, vocab + 2) for _ in range(rng.choice([0, 3, 8, 20, 40, 75]))] for _ in range(nd)]
+        ph = rng.sample(range(1, vocab + 1), rng.randint(2, min(3, vocab)))
+        sl = rng.choice([1, 1, 2, 3, 5])
+        bs = nd + 1
+        lhs = (f"match index_opt_g false {bs}%nat {_nll(docs)} with AOk ix => Some (slop_freqs ix {_nl(ph)} {sl}) "
+               "| _ => None end")
+
+        def rhs(r):
+            return "None" if r[0] != "ok" else "Some (" + _api(r[1][0], _nl) + ")"
+        out.append({"req": C.sx(["index_query", 0, bs, docs, [["slop", ph, sl]]]), "lhs": lhs, "rhs": rhs})
+    return out
+
+
 PROVIDERS = {
     "C11": ("From SA Require Import Base.Prelude Solr.MM Solr.MM_Spec.\nOpen Scope Z_scope.\n", _mm_cases, 150),
     "C12": ("From SA Require Import Base.Prelude Kernels.Intersect.\nOpen Scope N_scope.\n", _intersect_cases, 120),
@@ -249,6 +268,7 @@ PROVIDERS = {
     "C03": ("From SA Require Import Base.Prelude Index.Index Index.Truncate Query.Phrase.\nOpen Scope N_scope.\n", _index_cases, 80),
     "C16": ("From SA Require Import Base.Prelude Index.Index Index.Truncate Query.Phrase Query.Range.\nOpen Scope N_scope.\n", _range_cases, 80),
     "C06": ("From SA Require Import Base.Prelude Index.Index Index.Fast View.View.\nOpen Scope N_scope.\n", _view_cases, 80),
+    "C15": ("From SA Require Import Base.Prelude Index.Index Index.Truncate Span.Span.\nOpen Scope N_scope.\n", _slop_cases, 60),
     "C13": ("From SA Require Import Base.Prelude Codec.Codec.\nOpen Scope N_scope.\n", _codec_cases, 120),
 }
 
